@@ -1,6 +1,6 @@
 """C11 — graph iteration stays well defined while the graph is edited.
 
-Decided by: Coq theorems (coq/theories/C11/Property.v, 35 theorems, all "Closed under the global context")
+Decided by: Coq theorems (coq/theories/C11/Property.v, 41 theorems, all "Closed under the global context")
 about the hand-written executable model coq/theories/C11/Model.v of onnx_ir._linked_list.DoublyLinkedSet and of
 its generator-based iterators, tied to the code on every run by a correspondence check on schedules
 (interleavings of next() calls of several forward/backward iterators with edits and queries) against the real
@@ -56,9 +56,31 @@ THEOREMS (all proved for all states / schedules, no bounds):
                                            history from the graphs held open to the graphs held open afterwards,
                                            hence properly nested, and balanced when the traversal is exhausted
   C11_rec_history_never_raises              no history makes rnext stuck
-  Nothing is `_partial`.  Scope notes: RecursiveGraphIterator.__iter__ (which restarts the traversal) is not
-  modelled; node attributes and the predicate are fixed during a schedule (the predicate is a finite table per
-  case); insertions far from the cursor are stated positionally (C11_insert_position_law) rather than per API call.
+  Second deepening round — the pointer code is TRANSLATED per run (harness/props/_c11_translate.py, fail-closed
+  ast -> Gallina, one monad operation per attribute read/write, dict operation, allocation, call, raise):
+  Gen/C11Gen.v = _LinkBox.__init__/erase, DoublyLinkedSet.remove/_insert_one_after/_insert_many_after/append/
+  extend/insert_after/insert_before and the generators __iter__/__reversed__ (first / advance / scan) over the
+  box heap of C11/Heap.v (prev, next, value, owning_list; _root, _length, id->box dict).  HeapProofs*.v prove,
+  about the GENERATED definitions, that they refine the sequence+tombstone model under the representation
+  relation R (pointers of live boxes = prv/nxt derived from the live sequence; erased boxes keep frozen pointers):
+  C11_heap_R_init, C11_heap_edit_refines    every mutator: same outcome, related states (so every model theorem
+                                           transfers to the pointer code)
+  C11_heap_iter_refines, C11_heap_observers_refine   next() of both generators = the model's cursor step (incl. the
+                                           owning_list check and asserts never firing); list/reversed/len agree
+  C11_heap_erase_eval, C11_pointer_laws     the pointer surgery of erase; how prv/nxt change under erase/insert
+  A source edit of these lines changes Gen/C11Gen.v, so the proofs are re-checked against it and break (or the
+  translator rejects it): `proof:` obligation broken, besides the correspondence.  The translated code is also run
+  inside Coq on every case file and schedule tree (HeapRun.hagree / htree_fail) against the implementation.
+  RecursiveGraphIterator.__iter__ (restart) is modelled (RRestart: a new generator on the top graph; the abandoned
+  one owes no callbacks) and in the correspondence (iter(it) events, ~3 % of recursive schedule events).
+  Callbacks: what the property needs is the stack discipline (balanced, properly nested: ProofsR3 cb_run theorems
+  + the oracle, exact).  The doubled enter/exit per subgraph is how the code happens to do it: the correspondence
+  compares callback traces up to repetition of the same call (Model.dedup_adj), so a clean-up to one call each
+  does not break any obligation, while seeded C15-r4m1 (enter once / exit twice) is still caught with a replay by
+  the oracle's discipline check.
+  Nothing is `_partial`.  Scope notes: __getitem__/__contains__/__len__'s assertion are not translated (thin layer
+  over the translated iterators); node attributes and the predicate are fixed during a schedule; insertions far
+  from the cursor are stated positionally (C11_insert_position_law) rather than per API call.
 READINGS of the English (weaker reading taken by the oracle where ambiguous):
   * "touched" = removed, inserted or moved by an edit (being the anchor of insert_before/after does not touch).
   * position of an iterator whose current node was removed or moved = the gap where it was; "iteration resumes
@@ -1307,7 +1329,10 @@ def run(ck) -> None:
              "harness/props/c11.py: schedule generators, the runner of the real DoublyLinkedSet / ir.Graph / "
              "ir.Function / RecursiveGraphIterator, the Coq literal printer, the translation of Graph.sort / "
              "Graph.remove(iterable) into list-level edits (spec_sort)",
-             "hand-written model C11/Model.v of _linked_list.py tied by correspondence only (no translation)",
+             "harness/props/_c11_translate.py (fail-closed ast->Gallina translator of _linked_list.py; its output is "
+             "proved to refine C11/Model.v and is also run on every case file against the implementation)",
+             "hand-written model C11/Model.v: tied to the translated pointer code by the refinement theorems, to the "
+             "implementation by correspondence",
              "modelled not verified: CPython generator semantics (Fresh/Parked/Done, b.next read at resume time, "
              "yield from = a stack of generators); RecursiveGraphIterator.__iter__ (restart) is outside the model, "
              "node attributes and the `recursive` predicate are fixed during a schedule; Graph.sort order (C12) "
